@@ -145,6 +145,7 @@ static std::string describe(void *p, size_t size, size_t align) {
 
 int main(int argc, char **argv) {
     if (argc > 1 && !strcmp(argv[1], "consts")) { consts(); return 0; }
+    setvbuf(stdout, nullptr, _IOLBF, 0);      // a crash must not swallow the results printed so far
     scalable_allocation_mode(TBBMALLOC_INTERNAL_SOURCE_INCLUDED, 1);
     { void *w = scalable_malloc(1); scalable_free(w); }   // initialise
     char line[256];
